@@ -204,7 +204,10 @@ pub trait ChainStore: Send + Sync + Sized {
             ret
         };
 
-        if let Some(cache) = self.cache() {
+        // never cache a negative answer: the block may be stored later
+        if !ret.is_empty()
+            && let Some(cache) = self.cache()
+        {
             cache.block_tx_hashes.lock().put(hash.clone(), ret.clone());
         }
 
@@ -284,7 +287,10 @@ pub trait ChainStore: Send + Sync + Sized {
                     .and_then(|block| block.extension())
             });
 
-        if let Some(cache) = self.cache() {
+        // never cache a negative answer: the block may be stored later
+        if ret.is_some()
+            && let Some(cache) = self.cache()
+        {
             cache.block_extensions.lock().put(hash.clone(), ret.clone());
         }
         ret
